@@ -36,6 +36,7 @@ CBMC_MEM = ["--pointer-check", "--bounds-check"]
 VARIANT_FLAGS = {"str": ["-D_GLIBCXX_EXTERN_TEMPLATE=0", "-DVP_STRVARIANT=1"]}
 
 TOTAL_MEM_GB = int(os.environ.get("VP_TOTAL_MEM_GB", "52"))
+WITNESS_REPLAYS = int(os.environ.get("VP_WITNESS_REPLAYS", "2"))
 NCPU = int(os.environ.get("VP_JOBS", str(os.cpu_count() or 8)))
 
 
@@ -590,6 +591,27 @@ def run_property(prop, tier, jobs, assumptions, level_text, keep=False, only=Non
                 unreplayed.append((job, desc))
                 continue
             handle_failure(ctx, prop, job, u, res, violations, inconclusive, rec)
+        # translator / model validation on this run: replay the solver's witness for "end of harness" natively; the native
+        # run must reach the end without failing any assertion (at most two harness files per run)
+        if not fails and n_reach and WITNESS_REPLAYS:
+            with ctx.lock:
+                done = getattr(ctx, "witness_done", set())
+                ctx.witness_done = done
+                todo = job.harness not in done and len(done) < WITNESS_REPLAYS
+                if todo:
+                    done.add(job.harness)
+            if todo:
+                wname = next((x.get("property") for x in results if x.get("description") == "REACH:end of harness"), None)
+                if wname:
+                    tr = run_cbmc(ctx, job, u, trace_property=wname)
+                    if tr["status"] == "done":
+                        inp = extract_input(tr["out"], job.in_max, wname)
+                        rep = native_replay(ctx, job, inp, "witness")
+                        out = rep.get("out") or ""
+                        agrees = rep.get("built") and "VP_REACHED: end of harness" in out and "VP_ASSERT_FAILED" not in out and "VP_ASSUME_VIOLATED" not in out and not re.search(r"ERROR: AddressSanitizer|runtime error:", out)
+                        rec["witness_replayed_natively"] = bool(agrees)
+                        if not agrees:
+                            inconclusive.append((job, "native replay of the solver's witness disagrees with the encoding: " + (out or rep.get("log", ""))[-300:]))
         ctx.log("%-7s %s%s  %.1fs vars=%s proved=%d failed=%d reach=%d" % (rec["status"].upper(), job.name(), "" if job.variant == "real" else " {" + job.variant + "}", r["wall"], stats.get("variables"), n_ok, n_fail, n_reach))
 
     with cf.ThreadPoolExecutor(NCPU) as ex:
@@ -747,12 +769,17 @@ def write_evidence(ctx, prop, tier, seed, jobs, records, violations, inconclusiv
         "sat_clauses_total": sum(r.get("clauses", 0) for r in ok),
         "solver_s_total": round(sum(r.get("solver_s", 0.0) for r in ok), 2),
         "cbmc_wall_s_total": round(sum(r.get("wall_s", 0.0) for r in recs), 2),
-        "traces_validated_against_impl": sum(len(r.get("counterexamples", [])) for r in recs),
+        "traces_validated_against_impl": sum(len(r.get("counterexamples", [])) for r in recs) + sum(1 for r in recs if r.get("witness_replayed_natively")),
+        "witness_traces_replayed_natively_and_agreeing": sum(1 for r in recs if r.get("witness_replayed_natively")),
         "repo_functions_encoded": repo_funcs,
         "writable_static_objects_in_module": static_objects,
         "library_static_storage": lib_statics,
         "static_write_assertions_instrumented": static_write_checks,
-        "queries": recs,
+        "queries": [{k: r.get(k) for k in ("job", "variant", "status", "wall_s", "variables", "clauses", "steps", "properties_proved", "properties_failed", "reach_witnesses",
+                                            "reached", "not_reached_optional", "properties_unknown_after_failure", "counterexamples", "unreplayed_failures", "error") if r.get(k) not in (None, [], "")} for r in recs],
+        "bounds": sorted({"unwind=%s" % r.get("unwind") for r in recs}),
+        "symbolic_inputs": sorted({r.get("symbolic") for r in recs if r.get("symbolic")}),
+        "outside_the_claim": sorted({r.get("outside") for r in recs if r.get("outside")}),
         "inconclusive": [{"job": j.name(), "why": w[:400]} for j, w in inconclusive],
         "known_findings_hit": sorted({kf["id"] for kf, _, _ in known_hits}),
         "pipeline": "clang++-14 -O1 IR of /repo working tree -> ll2c -> C -> goto-cc -> cbmc 6.11 (MiniSat), --unwinding-assertions",
